@@ -389,6 +389,12 @@ def unmodelled_op_programs():
     yield [pers, "STOP"]
     yield call + [pers, "TUPLE2", "STOP"]
     yield [pers, ("BINPUT", 0), "POP"] + call + ["STOP"]
+    # the refused operation's value is never needed by what follows (left under the result, dropped with its
+    # mark, only memoised): a decompiler that resumes after the refusal produces a complete-looking program
+    yield [pers, ("BININT1", 7), "STOP"]
+    yield ["MARK", pers, "POP_MARK", ("BININT1", 7), "STOP"]
+    yield ["MARK", ("BININT1", 1), pers, "POP_MARK"] + call + ["STOP"]
+    yield call + [pers, "POP", "STOP"]
     for ext in ("EXT1", "EXT2", "EXT4"):
         yield [(ext, EXT_CODE), "STOP"]
         yield [(ext, EXT_CODE), ("BININT1", 1), "TUPLE1", "REDUCE", "STOP"]
